@@ -208,6 +208,9 @@ var tagPool = []string{"a", "A", "b", "x", "X", "y", "a,omitempty", ",omitempty"
 	// HTML-sensitive characters one at a time (the combined "<x>&" is above)
 	"a&b", "&", "a<b", "x>", "R&D,omitempty"}
 
+var stringableKinds = []string{"bool", "string", "int", "int8", "int16", "int32", "int64", "uint", "uint8", "uint16", "uint32", "uint64", "uintptr", "float32", "float64", "float64", "float32",
+	"@NamedInt", "@NamedF64", "@NamedBool", "@NamedStr", "@ByteUV", "@ByteUP", "@ByteUT", "@NamedU8"}
+
 var embeddable = []string{"EmbA", "EmbB", "Deep", "Dup"}
 
 var mapKeyKinds = []string{"string", "string", "string", "@NamedStr", "int", "int8", "int16", "int32", "int64", "uint", "uint8", "uint16", "uint32", "uint64", "uintptr", "@KText", "@NamedInt", "@KPS", "@IntKT"}
@@ -365,10 +368,29 @@ func genStruct(rt *rapid.T, o TypeOpts, depth int) TypeDesc {
 			if o.avoid("unifold") && hasFoldRune(tg) {
 				tg = "k"
 			}
+			if strings.Contains(tg, ",string") && rapid.Bool().Draw(rt, "stringable") {
+				// the option only means something on bool / string / numeric fields and pointers to them
+				k := TypeDesc{K: rapid.SampledFrom(stringableKinds).Draw(rt, "strkind")}
+				switch rapid.IntRange(0, 5).Draw(rt, "strptr") {
+				case 0, 1:
+					f.T = TypeDesc{K: "ptr", Elem: &k}
+				case 2:
+					pk := TypeDesc{K: "ptr", Elem: &k}
+					f.T = TypeDesc{K: "ptr", Elem: &pk}
+				default:
+					f.T = k
+				}
+				if o.avoid("ptrptr") && f.T.K == "ptr" && f.T.Elem.K == "ptr" {
+					f.T = k
+				}
+			}
 			if o.avoid("string-on-string") && strings.Contains(tg, ",string") && (f.T.Type().Kind() == reflect.String || (f.T.K == "ptr" && f.T.Elem.Type().Kind() == reflect.String)) {
 				tg = strings.ReplaceAll(tg, ",string", "")
 			}
 			if o.avoid("string-on-number") && strings.Contains(tg, ",string") && (f.T.K == "number" || (f.T.K == "ptr" && f.T.Elem.K == "number")) {
+				tg = strings.ReplaceAll(tg, ",string", "")
+			}
+			if o.avoid("string-on-unmarshaler") && strings.Contains(tg, ",string") && StringOptionOnUnmarshaler(f.T.Type()) {
 				tg = strings.ReplaceAll(tg, ",string", "")
 			}
 			if !(o.avoid("string-on-marshaler") && strings.Contains(tg, ",string") && HasMarshalMethods(f.T.Type())) {
@@ -378,6 +400,22 @@ func genStruct(rt *rapid.T, o TypeOpts, depth int) TypeDesc {
 		d.Fields = append(d.Fields, f)
 	}
 	return d
+}
+
+// StringOptionOnUnmarshaler: t (or the type it points to) is of a kind the ",string" option applies to
+// and has an UnmarshalJSON / UnmarshalText method (json.Number, which has neither, is not meant).
+func StringOptionOnUnmarshaler(t reflect.Type) bool {
+	if t.Kind() == reflect.Ptr {
+		t = t.Elem()
+	}
+	switch t.Kind() {
+	case reflect.Bool, reflect.String, reflect.Float32, reflect.Float64,
+		reflect.Int, reflect.Int8, reflect.Int16, reflect.Int32, reflect.Int64,
+		reflect.Uint, reflect.Uint8, reflect.Uint16, reflect.Uint32, reflect.Uint64, reflect.Uintptr:
+		p := reflect.PointerTo(t)
+		return p.Implements(jsonUnmarshalerType) || p.Implements(textUnmarshalerType)
+	}
+	return false
 }
 
 // Fresh returns a copy of d in which every struct carries a nonce, making the
